@@ -63,6 +63,63 @@ def parseBlocks : Nat → List String → Option (List (List String × List (Lis
     | none => none
     | some (b, rest) => (parseBlocks fuel rest).map (b :: ·)
 
+/-! ### inputs whose float64 sums are not exact (round 5)
+
+  Generated lengths are multiples of 1/8 and supports of 1/16: every float64 sum is exact and the
+  oracle compares exactly.  A tree with other values (decimal lengths such as 0.1, a replayed
+  request) carries in its dump the exact rationals of the float64s, but each addition of the
+  code rounds: then every comparison allows one rounding per addition on the path,
+  `(edges + 1) · 2⁻⁵² · Σ|weight|`. -/
+
+def exactR (q : Rat) : Bool := q == NIL || (65536 % q.den == 0 && q.num.natAbs ≤ q.den * 1048576)
+
+def exactTree (t : T) : Bool := t.edges.length ≤ 1024 && t.edges.all fun e => exactR e.len && exactR e.sup
+
+def absR (q : Rat) : Rat := if q ≥ 0 then q else -q
+
+def tolOf (m : Metric) (t : T) (a b : String) : Rat :=
+  ((t.edges.length + 1 : Nat) : Rat) * distW (fun e => absR (m.w e)) t.splits a b / 4503599627370496
+
+/-- `matrixOK` within the rounding of the additions (plus `extra`, the printed precision) -/
+def matrixNear (extra : Rat) (m : Metric) (t : T) (tips : List String) (mat : List (List Rat)) : Bool :=
+  tips == sortNames t.tipNames && mat.length == tips.length &&
+  (List.zipWith (fun (a : String) (row : List Rat) => row.length == tips.length &&
+    (List.zipWith (fun (b : String) (x : Rat) =>
+      let e := if a == b then 0 else pathSum m t a b
+      decide (absR (x - e) ≤ tolOf m t a b + extra)) tips row).all id) tips mat).all id
+
+/-- two matrices of the same tree within that rounding -/
+def nearM (m : Metric) (t : T) (tips : List String) (x y : List (List Rat)) : Bool :=
+  x.length == y.length && x.length == tips.length &&
+  (List.zipWith (fun (a : String) (rs : List Rat × List Rat) => rs.1.length == rs.2.length &&
+    (List.zipWith (fun (b : String) (xy : Rat × Rat) => decide (absR (xy.1 - xy.2) ≤ tolOf m t a b))
+      tips (rs.1.zip rs.2)).all id) tips (x.zip y)).all id
+
+/-- the oracle of one matrix: exact on exact inputs, within the additions' rounding otherwise -/
+def matrixJudge (extra : Rat) (m : Metric) (t : T) (tips : List String) (mat : List (List Rat)) : Bool :=
+  if exactTree t then matrixOK m t tips mat else matrixNear extra m t tips mat
+
+/-- complete blocks printed before anything that is not one (an error line) -/
+def parseBlocksPrefix : Nat → List String → List (List String × List (List Rat))
+  | 0, _ => []
+  | fuel + 1, ls =>
+    match parseBlock ls with
+    | none => []
+    | some (b, rest) => b :: parseBlocksPrefix fuel rest
+
+/-- two averages of the same trees: one rounding when every sum is exact, otherwise the roundings
+    of the additions inside each tree, of the accumulation and of the division -/
+def nearAvg (m : Metric) (ts : List T) (tips : List String) (x y : List (List Rat)) : Bool :=
+  if ts.all exactTree then eqM x y else
+  x.length == y.length && x.length == tips.length &&
+  (List.zipWith (fun (a : String) (rs : List Rat × List Rat) => rs.1.length == rs.2.length &&
+    (List.zipWith (fun (b : String) (xy : Rat × Rat) =>
+      let tol := ((ts.map fun u => 2 * tolOf m u a b).sum +
+        ((ts.length + 2 : Nat) : Rat) * (ts.map fun u => distW (fun e => absR (m.w e)) u.splits a b).sum / 4503599627370496) /
+        ((max ts.length 1 : Nat) : Rat)
+      decide (absR (xy.1 - xy.2) ≤ tol))
+      tips (rs.1.zip rs.2)).all id) tips (x.zip y)).all id
+
 def parseInTrees (s : String) : Option (Except String (List Cli.InTree)) :=
   if s.startsWith "NOFILE" then (unescape (String.ofList (s.toList.drop 6))).map Except.error else
   ((splitTerm "|" s).mapM fun (d : String) =>
@@ -86,17 +143,27 @@ def handleBase (op : String) (f : List String) : Verdict :=
       let tags := shapeTags t ++ tagIf (mat.any (·.any (· != 0))) "nontrivial" ++
         tagIf (mi != 0 && mi != 1 && mi != 2) "metric-other-int" ++
         tagIf (m == .boots && t.edges.any (·.sup == NIL)) "absent-support" ++
-        tagIf goSame "fid-golevel-exact"
+        tagIf goSame "fid-golevel-exact" ++ tagIf (!exactTree t) "inexact-sums"
       if !uniq then
         -- outside the quantifier: no oracle; statement-level model only, entries as a multiset
         match go with
         | some (gt, gm) =>
-          if gt == tips && triples gt gm == triples tips mat then ⟨.pass, "tie-only-dupnames" :: tags, ""⟩
+          -- repeated names and inexact sums: positions compared, each entry within the additions' rounding
+          let relNear := fun (x y : Rat) => decide (absR (x - y) * 4503599627370496 ≤ ((t.edges.length + 1 : Nat) : Rat) * (absR x + absR y))
+          let posNear := gm.length == mat.length &&
+            (List.zipWith (fun (r r' : List Rat) => r.length == r'.length && (List.zipWith relNear r r').all id) gm mat).all id
+          if gt == tips && (triples gt gm == triples tips mat || (!exactTree t && posNear)) then ⟨.pass, "tie-only-dupnames" :: tags, ""⟩
+          -- beyond 12 tips sort.Slice may order rows of EQUAL names otherwise, and with inexact sums the
+          -- entries cannot be matched as a multiset either: nothing left to compare but names and shape
+          else if gt == tips && !exactTree t && tips.length > 12 && gm.length == mat.length then
+            ⟨.pass, "tie-skipped-dup-unstable-inexact" :: tags, ""⟩
           else ⟨.tie, tags, "dup names: statement-level model " ++ showStrList gt ++ " " ++ showRatMatrix gm⟩
         | none => ⟨.tie, tags, "statement-level model fails"⟩
-      else if !(matrixOK m t tips mat) then ⟨.oracle, tags, "matrix differs from path sums"⟩
-      else if mt != tips || mm != mat then ⟨.tie, tags, "model matrix " ++ showRatMatrix mm⟩
-      else if !goSame then ⟨.tie, tags, "statement-level model differs"⟩
+      else if !(matrixJudge 0 m t tips mat) then ⟨.oracle, tags, "matrix differs from path sums"⟩
+      else if mt != tips || (if exactTree t then mm != mat else !(nearM m t tips mm mat)) then ⟨.tie, tags, "model matrix " ++ showRatMatrix mm⟩
+      else if exactTree t && !goSame then ⟨.tie, tags, "statement-level model differs"⟩
+      else if !exactTree t && !(match go with | some (gt, gm) => gt == tips && nearM m t tips gm mat | none => false) then
+        ⟨.tie, tags, "statement-level model differs beyond the rounding of the additions"⟩
       else ⟨.pass, tags, ""⟩
     | _, _, _, _ => bad "C14.matrix fields"
   | "avg", [ms, dumps, res, itips, imat] =>
@@ -111,7 +178,7 @@ def handleBase (op : String) (f : List String) : Verdict :=
         | [] => true
         | t :: r => r.all fun u => u.tipNames == t.tipNames
       -- hypothesis of theorem avgGo_is_avg, evaluated (it is a theorem for unique names: matrixGo_is_matrix)
-      let hgo := ts.all fun t => Go.matrixGo mi t == some (matrix m t)
+      let hgo := ts.all fun t => Go.matrixGo mi t == some (matrix m t)   -- both models are exact rationals: no rounding here
       let tags := tagIf sameTaxa "sametaxa" ++ tagIf (ts.length ≥ 2 && sameTaxa && res == "ok") "nontrivial" ++
         tagIf hgo "hyp-avgGo" ++ tagIf (ts.length == 1) "one-tree" ++
         tagIf (ts.length == 0) "no-tree" ++ tagIf (!sameOrder) "tip-order-differs" ++ tagIf (!uniq) "dupnames" ++
@@ -141,12 +208,12 @@ def handleBase (op : String) (f : List String) : Verdict :=
       | some _, "err" => ⟨.oracle, tags, "same taxa rejected"⟩
       | some _, "panic" => ⟨.oracle, tags, "panic on same taxa " ++ res⟩
       | some (en, em), _ =>
-        if en != tips || !(eqM mat em) then ⟨.oracle, tags, "average differs from the entrywise mean"⟩ else
+        if en != tips || !(nearAvg m ts tips mat em) then ⟨.oracle, tags, "average differs from the entrywise mean"⟩ else
         match avgMatrix m ts with
         | some (mn, mm) =>
-          if !(mn == tips && eqM mat mm) then ⟨.tie, tags, "model avg " ++ showRatMatrix mm⟩ else
+          if !(mn == tips && nearAvg m ts tips mat mm) then ⟨.tie, tags, "model avg " ++ showRatMatrix mm⟩ else
           (match go with
-           | .ok (gn, gm) => if gn == tips && eqM mat gm then ⟨.pass, tags, ""⟩ else ⟨.tie, tags, "statement-level avg " ++ showRatMatrix gm⟩
+           | .ok (gn, gm) => if gn == tips && nearAvg m ts tips mat gm then ⟨.pass, tags, ""⟩ else ⟨.tie, tags, "statement-level avg " ++ showRatMatrix gm⟩
            | _ => ⟨.tie, tags, "statement-level model: " ++ go.cls⟩)
         | none => ⟨.tie, tags, "model rejects"⟩
     | _, _, _, _ => bad "C14.avg fields"
@@ -192,13 +259,14 @@ def handleBase (op : String) (f : List String) : Verdict :=
       let oracleOK : Bool :=
         match Cli.metricOfFlag mflag, parseMetric (if mflag == "boot" then "boots" else mflag) with
         | some _, some (m, _) =>
-          if !uniq || avg || !allGood then true
-          else if exit != 0 then false   -- readable trees, a valid metric, unique names: the command must succeed
+          if !uniq || avg then true
+          else if allGood && exit != 0 then false   -- readable trees, a valid metric, unique names: the command must succeed
           else
-          (match parseBlocks (trees.length + 2) (lines text) with
-           | some blocks => blocks.length == trees.length &&
-               (List.zipWith (fun (b : List String × List (List Rat)) t => matrixOK m t b.1 b.2) blocks trees).all id
-           | none => false)
+          -- every complete block that was printed is judged, also those before an unreadable tree;
+          -- `trees` are the readable trees before it (the reader stops at the first error)
+          let blocks := parseBlocksPrefix (trees.length + 2) (lines text)
+          blocks.length == trees.length &&
+            (List.zipWith (fun (b : List String × List (List Rat)) t => matrixJudge (1 / 1000000000000) m t b.1 b.2) blocks trees).all id
         | _, _ => exit != 0
       -- oracle for --avg: same taxa give the entrywise mean (within the printed precision),
       -- differing taxa or an unreadable tree are an error; a Go panic (exit 2) is never right
@@ -226,7 +294,9 @@ def handleBase (op : String) (f : List String) : Verdict :=
       else if !oracleOK then ⟨.oracle, tags, "printed matrix differs from path sums / wrong metric accepted / the command failed on valid input"⟩
       else if !avgOK then ⟨.oracle, tags, "--avg: not the entrywise mean / differing taxa or unreadable tree not rejected"⟩
       else if model.exit != exit.toNat || exit < 0 then ⟨.tie, tags, s!"model exit {model.exit} ({model.msg})"⟩
-      else if model.written outmode != text then ⟨.tie, tags, "model text " ++ escape (model.written outmode)⟩
+      else if trees.all exactTree && model.written outmode != text then ⟨.tie, tags, "model text " ++ escape (model.written outmode)⟩
+      else if !(trees.all exactTree) && (lines (model.written outmode)).length != (lines text).length then
+        ⟨.tie, tags, "model text has another number of lines"⟩   -- digits may differ in the last printed place: values are judged above
       else ⟨.pass, tags, ""⟩
     | _, _, _, _ => bad "C14.climatrix fields"
   | "clicut", [lflag, outmode, dumps, exits, text] =>
@@ -247,10 +317,12 @@ def handleBase (op : String) (f : List String) : Verdict :=
         match thr with
         | none => exit != 0
         | some thr =>
-          if !uniq || !allGood then true
-          else if exit != 0 then false   -- a valid file, a valid threshold, unique names: the command must succeed
+          if !uniq then true
+          else if allGood && exit != 0 then false   -- a valid file, a valid threshold, unique names: the command must succeed
           else
-          let recs := (lines text).map fun l => l.splitOn "\t"
+          -- every group line that was printed is judged, also those before an unreadable tree
+          let recs0 := (lines text).map fun l => l.splitOn "\t"
+          let recs := if allGood then recs0 else recs0.filter fun r => r.length == 3 && (r.headD "").toNat?.isSome
           recs.all (fun r => r.length == 3 && (r.getD 1 "").toNat? == some ((r.getD 2 "").splitOn ",").length) &&
           (trees.zipIdx.all fun ti =>
             cutSpecOK thr ti.1 ((recs.filter fun r => r.headD "" == toString ti.2).map fun r => (r.getD 2 "").splitOn ","))
